@@ -275,6 +275,24 @@ def scenario(w):
             if len(vals):
                 used_conds.append('%s==%r' % (name, float(vals[0])))
                 used_conds.append('%s>%r' % (name, float(np.median(vals))))
+        # the table export of each container agrees with that container's own stored metrics - after every step,
+        # so an export taken before a metric was overwritten can never be served again
+        for label, cobj in (('cache-on', con), ('cache-off', coff)):
+            try:
+                df = cobj.get_metric_dataframe()
+            except Exception as e:
+                C.reraise_if_harness(e)
+                w.violation('export', 'raised:all', 'after %s get_metric_dataframe() raised %r in the %s container' % (after, e, label))
+                return False
+            if list(df.columns) != list(cobj.metrics.keys()) or len(df) != cobj.ncycles:
+                w.violation('export', 'shape:all', 'after %s the full export has columns %s / %d rows, the container holds %s / %d cycles'
+                            % (after, list(df.columns), len(df), list(cobj.metrics.keys()), cobj.ncycles))
+                return False
+            for name2, v in cobj.metrics.items():
+                if len(v) == len(df) and not _veq(df[name2].to_numpy(), np.asarray(v)):
+                    w.violation('export', 'values:all', 'after %s the exported column %r is %s but the %s container stores %s (history: %s)'
+                                % (after, name2, df[name2].to_numpy().tolist(), label, np.asarray(v).tolist(), hist))
+                    return False
         for c in used_conds[-24:]:
             name = Model.parse(c)[0]
             if name not in M.metrics or name in M.aug or name in M.unspecified:
